@@ -380,11 +380,13 @@ Section Univ.
   Variable succs : nat -> list nat.
   Variable subj : nat -> option nat.
   Variable sk : nat -> bool.
+  Variable bad : nat -> bool.
   Variable dflt : nat -> bool.
 
   Notation visit := (visit mf succs).
   Notation index_all := (index_all N mf succs).
-  Notation st_push := (st_push mf).
+  Notation st_push := (st_push mf bad).
+  Notation st_tagop := (st_tagop true).
   Notation delete1 := (delete1 succs).
   Notation delete_loop := (delete_loop N mf succs subj true).
   Notation st_delete := (st_delete N mf succs subj true).
@@ -393,8 +395,8 @@ Section Univ.
   Notation gc_rounds := (gc_rounds N mf succs subj sk).
   Notation st_gc := (st_gc N mf succs subj sk true true true).
   Notation reopen := (reopen N mf succs).
-  Notation step := (step N mf succs subj sk true true true true).
-  Notation run := (run N mf succs subj sk true true true true).
+  Notation step := (step N mf succs subj sk bad true true true true true).
+  Notation run := (run N mf succs subj sk bad true true true true true).
   Notation obs_equiv := (obs_equiv N succs dflt).
   Notation wf_op := (wf_op mf).
   Notation wf_history := (wf_history mf).
@@ -580,36 +582,46 @@ Section Univ.
   Qed.
 
   (* ----- Push ----- *)
-  Lemma push_good cfg o k s : Good cfg s -> Good cfg (fst (st_push cfg o k s)).
+  Lemma push_desc_good cfg o d s : Good cfg s -> Good cfg (fst (st_push_desc mf bad cfg o d s)).
   Proof.
-    intros G. unfold st_push. destruct (mem k (blobs s)) eqn:M; [exact G|].
+    intros G. unfold st_push_desc. set (k := d_node d).
+    destruct (mem k (blobs s)) eqn:M; [exact G|].
+    destruct (bad k); [exact G|].
     destruct G as [H S]. destruct (mf k) eqn:Mk; simpl.
-    - unfold st_tag. apply good_save. unfold Inv, idx. simpl.
-      unfold is_digest_ref. simpl. rewrite Nat.eqb_refl. simpl.
-      change (rset (RDig k) (plain k) (r_index (res s))) with (rset (RDig (d_node (plain k))) (plain k) (idx s)).
+    - unfold st_tag. apply good_save. unfold Inv, idx.
+      assert (E : is_digest_ref (RDig k) d = true) by (unfold is_digest_ref, k; apply ref_eqb_refl).
+      rewrite E. cbn [blobs res gr disk r_index res_tag].
+      change (rset (RDig k) d (r_index (res s))) with (rset (RDig (d_node d)) d (idx s)).
       split.
       + apply ixinv_set_dig, H.
-      + intros r d L. rewrite lookup_rset in L. destruct (ref_eqb r (RDig (d_node (plain k)))).
+      + intros r d' L. rewrite lookup_rset in L. destruct (ref_eqb r (RDig (d_node d))).
         * injection L as <-. now left.
         * right. eapply inv_i4; eauto.
       + intros k' Mk' [<-|I]; rewrite lookup_rset.
-        * simpl. rewrite Nat.eqb_refl. congruence.
-        * destruct (ref_eqb (RDig k') (RDig (d_node (plain k)))); [congruence|]. eapply inv_k; eauto.
+        * fold k. rewrite ref_eqb_refl. congruence.
+        * destruct (ref_eqb (RDig k') (RDig (d_node d))); [congruence|]. eapply inv_k; eauto.
       + intros k' Mk' I. apply In_add in I as [->|I]; [now left|]. right. eapply inv_g2a; eauto.
       + intros k' Mk' [<-|I]; apply In_add; auto. right. eapply inv_g2b; eauto.
     - apply (good_same cfg s); [split; auto| |reflexivity|reflexivity].
       unfold Inv, idx. simpl. split.
       + apply H.
-      + intros r d L. right. eapply inv_i4; eauto.
+      + intros r d' L. right. eapply inv_i4; eauto.
       + intros k' Mk' [<-|I]; [congruence|]. eapply inv_k; eauto.
       + intros k' Mk' I. apply In_add in I as [->|I]; [congruence|]. right. eapply inv_g2a; eauto.
       + intros k' Mk' [<-|I]; [congruence|]. apply In_add. right. eapply inv_g2b; eauto.
   Qed.
+  Lemma push_good cfg o k s : Good cfg s -> Good cfg (fst (st_push cfg o k s)).
+  Proof. apply push_desc_good. Qed.
 
-  Lemma tagop_good cfg o d r s : Good cfg s -> wf_tag d r -> Good cfg (fst (st_tagop cfg o d r s)).
+  Lemma tagop_good cfg o d r s : Good cfg s -> Good cfg (fst (st_tagop cfg o d r s)).
   Proof.
-    intros G W. unfold st_tagop. destruct (mem (d_node d) (blobs s)) eqn:M; [|exact G].
-    simpl. apply st_tag_good; auto. apply G. now apply mem_In.
+    intros G. unfold OciIndex.st_tagop. simpl.
+    destruct (negb match r with RDig k => Nat.eqb k (d_node d) | RTag _ => true end) eqn:W; [exact G|].
+    destruct (mem (d_node d) (blobs s)) eqn:M; [|exact G].
+    simpl. apply st_tag_good.
+    - apply G.
+    - now apply mem_In.
+    - destruct r as [t|k]; simpl; auto. apply negb_false_iff in W. now apply Nat.eqb_eq in W.
   Qed.
 
   (* ----- Untag ----- *)
@@ -984,6 +996,7 @@ Section Univ.
   Proof.
     intros G W R. destruct oo as [o ord]. destruct o; simpl in *.
     - now apply push_good.
+    - now apply push_desc_good.
     - now apply tagop_good.
     - now apply untag_good.
     - unfold OciIndex.st_delete. now apply delete_loop_good.
@@ -991,6 +1004,7 @@ Section Univ.
     - destruct G as [H S]. split; [exact H|]. intros _. unfold Synced, idx. simpl. apply save_diskok. apply H.
     - destruct R as [A|R]; [|congruence]. destruct G as [H S].
       destruct (reopen_good s H (S A)) as [H' S']. split; auto.
+    - exact G.
     - destruct (mem k (blobs s)); [exact G|]. simpl.
       apply (good_same cfg s); [exact G| |reflexivity|reflexivity].
       destruct G as [H _]. unfold Inv, idx in *. simpl. split.
@@ -1001,14 +1015,30 @@ Section Univ.
       + intros k' Mk [<-|I]; [congruence|]. eapply inv_g2b; eauto.
   Qed.
 
-  Lemma run_good cfg h : forall s,
+  Lemma good_cfg cfg cfg' s : autosave cfg' = autosave cfg -> Good cfg s -> Good cfg' s.
+  Proof. intros E [H S]. split; auto. rewrite E. exact S. Qed.
+  Lemma next_cfg_autosave cfg o : autosave (next_cfg cfg o) = autosave cfg.
+  Proof. destruct o; reflexivity. Qed.
+
+  Lemma run_good h : forall cfg s,
     Good cfg s -> wf_history h -> (autosave cfg = true \/ no_reopen h) -> Good cfg (run cfg h s).
   Proof.
-    induction h as [|oo h IH]; intros s G W R; simpl; auto.
+    induction h as [|oo h IH]; intros cfg s G W R; simpl; auto.
     inversion W as [|? ? W1 W2]; subst.
+    apply (good_cfg (next_cfg cfg (fst oo))); [symmetry; apply next_cfg_autosave|].
     apply IH; auto.
-    - apply step_good; auto. destruct R as [A|R]; auto. right. now inversion R.
-    - destruct R as [A|R]; auto. right. now inversion R.
+    - apply (good_cfg cfg); [apply next_cfg_autosave|].
+      apply step_good; auto. destruct R as [A|R]; auto. right. now inversion R.
+    - rewrite next_cfg_autosave. destruct R as [A|R]; auto. right. now inversion R.
+  Qed.
+
+  Lemma run_app h : forall cfg s x,
+    exists cfg', autosave cfg' = autosave cfg /\ run cfg (h ++ [x]) s = fst (step cfg' (run cfg h s) x).
+  Proof.
+    induction h as [|oo h IH]; intros cfg s x; simpl.
+    - exists cfg. auto.
+    - destruct (IH (next_cfg cfg (fst oo)) (fst (step cfg s oo)) x) as (c & E & Hc).
+      exists c. split; auto. now rewrite E, next_cfg_autosave.
   Qed.
 
   Lemma good_empty cfg : Good cfg store_empty.
@@ -1072,7 +1102,7 @@ Section Univ.
     let s := run cfg h store_empty in
     obs_equiv T (reopen s) s /\ disk_valid s = true.
   Proof.
-    intros A W s. destruct (run_good cfg h store_empty (good_empty cfg) W (or_introl A)) as [H S].
+    intros A W s. destruct (run_good h cfg store_empty (good_empty cfg) W (or_introl A)) as [H S].
     split; [apply reopen_equiv | apply disk_valid_inv]; auto.
   Qed.
 
@@ -1083,9 +1113,9 @@ Section Univ.
     obs_equiv T (reopen s) s /\ disk_valid s = true.
   Proof.
     intros W R s.
-    destruct (run_good cfg h store_empty (good_empty cfg) W (or_intror R)) as [H _].
+    destruct (run_good h cfg store_empty (good_empty cfg) W (or_intror R)) as [H _].
     assert (E : s = do_save o (run cfg h store_empty)).
-    { unfold s, OciIndex.run. rewrite fold_left_app. reflexivity. }
+    { unfold s. destruct (run_app h cfg store_empty (OSave, o)) as (c & _ & ->). reflexivity. }
     assert (H' : Inv s) by (rewrite E; exact H).
     assert (S' : Synced s).
     { rewrite E. unfold Synced, idx. simpl. apply save_diskok. apply H. }
@@ -1114,13 +1144,15 @@ Section Univ.
     - simpl. destruct (reopen_good s H (S (or_intror (R eq_refl)))) as [H' S']. split; auto.
   Qed.
 
-  Lemma run_good2 cfg h : forall b s,
+  Lemma run_good2 h : forall cfg b s,
     Good2 cfg b s -> wf_history h -> reopen_after_save b h -> Inv (run cfg h s).
   Proof.
-    induction h as [|oo h IH]; intros b s G W R; simpl; [apply G|].
+    induction h as [|oo h IH]; intros cfg b s G W R; simpl; [apply G|].
     inversion W as [|? ? W1 W2]; subst.
-    apply (IH (saved_after (fst oo))); auto.
-    - apply (step_good2 cfg b); auto. intro E. simpl in R. rewrite E in R. apply R.
+    apply (IH (next_cfg cfg (fst oo)) (saved_after (fst oo))); auto.
+    - assert (G' : Good2 cfg (saved_after (fst oo)) (fst (step cfg s oo))).
+      { apply (step_good2 cfg b); auto. intro E. simpl in R. rewrite E in R. apply R. }
+      destruct G' as [H' S']. split; auto. now rewrite next_cfg_autosave.
     - simpl in R. destruct (fst oo); simpl; try exact R. apply R.
   Qed.
 
@@ -1131,9 +1163,9 @@ Section Univ.
   Proof.
     intros W R s.
     assert (H : Inv (run cfg h store_empty)).
-    { apply (run_good2 cfg h true); auto. split; [apply inv_empty | intros _; apply synced_empty]. }
+    { apply (run_good2 h cfg true); auto. split; [apply inv_empty | intros _; apply synced_empty]. }
     assert (E : s = do_save o (run cfg h store_empty)).
-    { unfold s, OciIndex.run. rewrite fold_left_app. reflexivity. }
+    { unfold s. destruct (run_app h cfg store_empty (OSave, o)) as (c & _ & ->). reflexivity. }
     assert (H' : Inv s) by (rewrite E; exact H).
     assert (S' : Synced s).
     { rewrite E. unfold Synced, idx. simpl. apply save_diskok. apply H. }
@@ -1148,7 +1180,7 @@ Section Univ.
     (forall k, mf k = true -> In k (gr s) -> In k (blobs s)) /\
     (forall r d, lookup r (r_index (res s)) = Some d -> In (d_node d) (blobs s)).
   Proof.
-    intros W R s. destruct (run_good cfg h store_empty (good_empty cfg) W R) as [H _].
+    intros W R s. destruct (run_good h cfg store_empty (good_empty cfg) W R) as [H _].
     split; [|split].
     - intros k Mk Ik. split; [eapply inv_k | eapply inv_g2b]; eauto.
     - intros k Mk Ik. eapply inv_g2a; eauto.
@@ -1165,7 +1197,7 @@ Lemma refuted_gc_not_saved :
   exists (N : nat) (mf : nat -> bool) (succs : nat -> list nat) (subj : nat -> option nat)
          (sk dflt : nat -> bool) (cfg : config) (h : list (op * orders)),
     autosave cfg = true /\ wf_history mf h /\
-    let s := run N mf succs subj sk false true true true cfg h store_empty in
+    let s := run N mf succs subj sk (fun _ => false) false true true true true cfg h store_empty in
     obs_resolve_dig dflt (reopen N mf succs s) 0 <> obs_resolve_dig dflt s 0 /\ disk_valid s = false.
 Proof.
   exists 1, (fun _ => true), (fun _ => []), (fun _ => None), (fun _ => false), (fun _ => false),
@@ -1182,7 +1214,7 @@ Lemma refuted_gc_drops_digest_ref :
   exists (N : nat) (mf : nat -> bool) (succs : nat -> list nat) (subj : nat -> option nat)
          (sk dflt : nat -> bool) (cfg : config) (h : list (op * orders)),
     autosave cfg = true /\ wf_history mf h /\ (forall k, mf k = false -> succs k = []) /\
-    let s := run N mf succs subj sk true false true true cfg h store_empty in
+    let s := run N mf succs subj sk (fun _ => false) true false true true true cfg h store_empty in
     obs_preds N succs (reopen N mf succs s) 0 <> obs_preds N succs s 0.
 Proof.
   exists 3, ex_mf, ex_succs, (fun _ => None), (fun _ => true), (fun _ => false),
@@ -1203,7 +1235,7 @@ Definition ex_hist : list (op * orders) :=
     (ODelete 2, mkOrd [1] [] [] [] [([1], [2;0])]); (OReopen, ord0); (OPush 2, ord0) ].
 Lemma example_history :
   wf_history ex_mf ex_hist /\ (forall k, ex_mf k = false -> ex_succs k = []) /\
-  let s := run 3 ex_mf ex_succs (fun _ => None) (fun _ => true) true true true true ex_cfg ex_hist store_empty in
+  let s := run 3 ex_mf ex_succs (fun _ => None) (fun _ => true) (fun _ => false) true true true true true ex_cfg ex_hist store_empty in
   obs_tags 3 s = [0] /\ obs_resolve_tag s 0 = Some (mkDesc 1 2 (Some (RTag 0))) /\
   obs_preds 3 ex_succs s 1 = [2] /\ obs_preds 3 ex_succs s 0 = [1] /\
   obs_preds 3 ex_succs (reopen 3 ex_mf ex_succs s) 0 = [1] /\ disk_valid s = true.
@@ -1213,24 +1245,27 @@ Proof.
   - vm_compute. repeat split.
 Qed.
 Lemma example_repaired :
-  let s := run 3 ex_mf ex_succs (fun _ => None) (fun _ => true) true true true true ex_cfg
+  let s := run 3 ex_mf ex_succs (fun _ => None) (fun _ => true) (fun _ => false) true true true true true ex_cfg
              (ex_plain_hist [OPush 1; OPush 2; OTag (plain 2) (RTag 0); OGC; ODelete 2]) store_empty in
   obs_preds 3 ex_succs (reopen 3 ex_mf ex_succs s) 0 = [1] /\ obs_preds 3 ex_succs s 0 = [1].
 Proof. vm_compute. split; reflexivity. Qed.
 
-(* a tag name that is the digest string of another node breaks J2 and the
-   equivalence: why [wf_history] is needed *)
-Lemma inconsistent_reference_example :
-  exists h, ~ wf_history (fun _ => true) h /\
-    let s := run 2 (fun _ => true) (fun _ => []) (fun _ => None) (fun _ => true) true true true true ex_cfg h store_empty in
-    obs_resolve_dig (fun _ => false) (reopen 2 (fun _ => true) (fun _ => []) s) 1 <> obs_resolve_dig (fun _ => false) s 1.
-Proof.
-  exists (ex_plain_hist [OPush 0; OTag (plain 0) (RDig 1)]).
-  split.
-  - intro W. inversion W as [|? ? _ W2]; subst. inversion W2 as [|? ? W3 _]; subst.
-    simpl in W3. discriminate.
-  - vm_compute. discriminate.
-Qed.
+(* The code as found accepts a reference that is the digest string of OTHER stored content
+   (validateReference only refuses ""): Tag(m1, digest(m2)) replaces m2's digest entry, the
+   reopened store no longer indexes m2 (Predecessors of its layer differ; a later GC would
+   collect it).  The repaired Tag refuses it. *)
+Definition ex2_mf (k : nat) := match k with 1 | 2 => true | _ => false end.
+Definition ex2_succs (k : nat) := match k with 2 => [0] | _ => [] end.
+Lemma refuted_foreign_digest_reference :
+  let h := ex_plain_hist [OPush 1; OPush 2; OTag (plain 1) (RDig 2)] in
+  let run' := fun fixRef => run 3 ex2_mf ex2_succs (fun _ => None) (fun _ => true) (fun _ => false)
+                                true true true true fixRef ex_cfg in
+  (let s := run' false h store_empty in
+   obs_preds 3 ex2_succs s 0 = [2] /\ obs_preds 3 ex2_succs (reopen 3 ex2_mf ex2_succs s) 0 = []) /\
+  (let s := run' true (ex_plain_hist [OPush 1; OPush 2]) store_empty in
+   snd (step 3 ex2_mf ex2_succs (fun _ => None) (fun _ => true) (fun _ => false) true true true true true
+             ex_cfg s (OTag (plain 1) (RDig 2), ord0)) = RInvalidReference).
+Proof. vm_compute. repeat split. Qed.
 
 (* F1 (C09): with the referrer pass as found, GC never returns for an untagged manifest
    whose subject is not in the rebuilt graph; the repaired pass returns and collects it *)
@@ -1238,8 +1273,8 @@ Lemma prefix_gc_hangs :
   let mf := fun k => Nat.eqb k 1 in
   let succs := fun k : nat => if Nat.eqb k 1 then [0] else [] in
   let subj := fun k : nat => if Nat.eqb k 1 then Some 0 else None in
-  let s1 := run 2 mf succs subj mf true true false true ex_cfg (ex_plain_hist [OPush 1]) store_empty in
-  snd (step 2 mf succs subj mf true true false true ex_cfg s1 (OGC, ord0)) = RHang /\
-  let r := step 2 mf succs subj mf true true true true ex_cfg s1 (OGC, ord0) in
+  let s1 := run 2 mf succs subj mf (fun _ => false) true true false true true ex_cfg (ex_plain_hist [OPush 1]) store_empty in
+  snd (step 2 mf succs subj mf (fun _ => false) true true false true true ex_cfg s1 (OGC, ord0)) = RHang /\
+  let r := step 2 mf succs subj mf (fun _ => false) true true true true true ex_cfg s1 (OGC, ord0) in
   snd r = ROk /\ obs_exists (fst r) 1 = false.
 Proof. vm_compute. repeat split. Qed.
